@@ -172,6 +172,11 @@ def id_lists(draw, n, kind="simple", prefix="o"):
             ids = draw(st.permutations(pool))[:n]
             ids = list(ids) + ["%s_%d" % (prefix, i)
                                for i in range(n - len(ids))]
+            # already in plain text order (which is not natural order), or
+            # its reverse: "nothing to do" shortcuts
+            how = draw(st.sampled_from(["asis", "asis", "text", "rtext"]))
+            if how != "asis":
+                ids = sorted(ids, reverse=how == "rtext")
         else:
             ids = draw(st.lists(id_text("ascii").map(lambda s: prefix + s),
                                 min_size=n, max_size=n, unique=True))
